@@ -93,7 +93,7 @@ def run(rep: Report, tier: str) -> None:
                 callees = {(_callee_name(c)) for s in node.body for c in ast.walk(s) if isinstance(c, ast.Call)}
                 if allowed is not None:
                     grown = sorted(c for c in callees if c not in allowed)
-                    rep.check(not grown, ra, mod.name, q, f"benign handler except {caught} in {q} still covers only the confirmed calls", f"the try body guarded by the tabled-benign 'except {caught}' in {q} now also covers {grown}: errors of those calls would be swallowed ({reason})", loc(node))
+                    rep.check(not grown, ra, mod.name, q, f"benign handler except {caught} in {q} still covers only the confirmed calls", f"the try body guarded by the tabled-benign 'except {caught}' in {q} now also covers {grown}: errors of those calls would be swallowed ({reason})", loc(node), definite=True)
                 else:
                     rep.ok(ra, f"benign handler except {caught} in {q}", reason)
     for key in BENIGN_HANDLERS:
@@ -101,7 +101,7 @@ def run(rep: Report, tier: str) -> None:
             rep.note(f"tabled benign handler {key} no longer exists (stale table entry, harmless)")
 
     # ---------------------------------------------------------------- C12.b
-    rb = rep.rule("C12.b", "every constructor parameter reaches its field only through the validator the statement demands", floor=40)
+    rb = rep.rule("C12.b", "every constructor parameter reaches its field only through the validator the statement demands", floor=40, follows_calls=True)
     _check_validators(rep, rb, m)
 
     # ---------------------------------------------------------------- C12.c
@@ -210,8 +210,33 @@ def _validated_uses(m, ci, param: str) -> List[Tuple[str, Dict[str, Any], ast.AS
                 val = kw.get("value", kw.get("instance", kw.get("transaction_type", kw.get("entry_set_type"))))
                 if val == ("sym", param):
                     consts = {k: v[1] for k, v in kw.items() if v[0] == "const" and k not in ("name",)}
-                    out.append((t[1], consts, n))
+                    fq = t[1]
+                    # `SomeClass.type_check(name, x)` tests isinstance(x, cls): the class that validates is the receiver, wherever the classmethod is inherited from
+                    if fq.endswith(".type_check") and isinstance(n.func, ast.Attribute) and isinstance(n.func.value, ast.Name) and n.func.value.id[:1].isupper():
+                        impl = m.prog.functions.get(fq)
+                        if impl is not None and "isinstance(instance, cls)" in unparse(impl.node):
+                            fq = fq.rsplit(":", 1)[0] + ":" + n.func.value.id + ".type_check"
+                    out.append((fq, consts, n, []))
+            elif t[0] == "ite":
+                # a helper that was interpreted (not itself a validator, e.g. 'validate unless absent, else default'): the validators it reaches, with the
+                # conditions under which it reaches them
+                for fq, consts, conds in _validators_in_term(t, param, []):
+                    out.append((fq, consts, n, conds))
     return out
+
+
+def _validators_in_term(t, param: str, conds: list):
+    if not isinstance(t, tuple) or not t:
+        return
+    if t[0] == "call" and ".type_check" in t[1]:
+        kw = dict(t[2])
+        val = kw.get("value", kw.get("instance", kw.get("transaction_type", kw.get("entry_set_type"))))
+        if val == ("sym", param):
+            yield t[1], {k: v[1] for k, v in kw.items() if v[0] == "const" and k not in ("name",)}, list(conds)
+        return
+    if t[0] == "ite":
+        yield from _validators_in_term(t[2], param, conds + [t[1]])
+        yield from _validators_in_term(t[3], param, conds + [("not", t[1])])
 
 
 def _truthiness_guards(node: ast.AST, stop: ast.AST, param: str) -> List[ast.AST]:
@@ -264,14 +289,14 @@ def _check_validators(rep: Report, rule: str, m) -> None:
             # ('x if param else default', 'if param:') treats a supplied 0 like 'not supplied' and skips the rejection
             if kwreq.get("non_zero") is True or validator.endswith(("type_check_exchange", "type_check_holder", "type_check_asset")):
                 for u in good:
-                    tests = _truthiness_guards(u[2], init.node, param)
+                    tests = _truthiness_guards(u[2], init.node, param) + [c for c in u[3] if ("truthy", ("sym", param)) in subterms(c)]
                     rep.check(
                         not tests,
                         rule,
                         mod,
                         init.qualname,
                         f"{cname}.{param}: the validator runs for every supplied value (guard is 'is None', not truthiness)",
-                        f"the validation of '{param}' in {cname}.__init__ is reached only when {[short(t, 60) for t in tests]} is truthy: a supplied value of 0 (or an empty string) is then treated as 'not supplied' and silently "
+                        f"the validation of '{param}' in {cname}.__init__ is reached only when {[short(t, 60) if isinstance(t, ast.AST) else show(t)[:60] for t in tests]} is truthy: a supplied value of 0 (or an empty string) is then treated as 'not supplied' and silently "
                         f"replaced by a computed default instead of being rejected by {need}",
                         loc(u[2]),
                     )
@@ -461,9 +486,10 @@ def _check_config_cli(rep: Report, rule: str, m) -> None:
     d = kw.get("default")
     rep.check(isinstance(d, ast.Constant) and d.value in ("", None), rule, setup.module, setup.qualname, "-m defaults to 'not given' (falsy constant)", f"-m has default={unparse(d) if d is not None else '<argparse None>'}: the run distinguishes 'method given on the command line' by truthiness of args.method, so a non-empty default makes a config with an [accounting_methods] section abort, or hides an explicit -m equal to the default from the conflict check", loc(opt))
     main = prog.func("rp2.rp2_main", "_rp2_main_internal")
-    ifs = [n for n in ast.walk(main.node) if isinstance(n, ast.If) and unparse(n.test) == "args.method and configuration.years_2_accounting_method_names"]
-    ok = len(ifs) == 1 and terminates(ifs[0].body) and "sys.exit(1)" in unparse(ifs[0].body[-1])
-    rep.check(ok, rule, main.module, main.qualname, "-m together with [accounting_methods] => exit 1", "the conflict check is no longer exactly 'args.method and configuration.years_2_accounting_method_names' followed by sys.exit(1): a contradictory method specification would be accepted (one of the two silently ignored)", loc(main.node))
+    from ..engine import method_conflict_exit
+
+    ok = len(method_conflict_exit(m)) == 1
+    rep.check(ok, rule, main.module, main.qualname, "-m together with [accounting_methods] => exit 1", "no sys.exit(<non-zero>) is reached exactly under 'args.method is given and the configuration has an accounting_methods table': a contradictory method specification would be accepted (one of the two silently ignored)", loc(main.node))
     va = prog.func("rp2.rp2_main", "_validate_accounting_methods")
     txt = unparse(va.node)
     rep.check("if normalized_plugin_name in accounting_methods:" in txt and "accounting_methods: Set[str] = country.get_accounting_methods()" in txt, rule, va.module, va.qualname, "validated methods = plugins present AND accepted by the country", "_validate_accounting_methods no longer intersects the discovered plugins with country.get_accounting_methods()", loc(va.node))
@@ -520,18 +546,12 @@ def _check_tokens(rep: Report, rule: str, m) -> None:
     v = ("sym", "v")
     args = {"cell_value": (v, ("prim", "str"))}
     ctx = Ctx(P, None)
-    emp = prog.func(P, "_is_empty")
-    t = norm.inline(emp, None, args, ctx)
-    want = ("or", tuple(sorted([("cmp", "==", v, ("const", "")), ("cmp", "is", v, ("const", None))], key=tkey)))
-    rep.check(tkey(t) == tkey(want), rule, P, "_is_empty", "empty cell = None or the empty string, nothing else", f"_is_empty normalises to {show(t)[:160]}; expected 'cell_value is None or cell_value == \"\"': a wider notion of empty lets a malformed row (e.g. '-') end or skip a table silently", loc(emp.node))
-    end = prog.func(P, "_is_table_end")
-    t = norm.inline(end, None, args, ctx)
+    # the three row predicates are decided by evaluating their normal forms on representative first-cell values (shared with C11.g: spelling-independent)
+    from .c11 import _check_row_predicates
+
+    _check_row_predicates(rep, m, rule_id=rule)
     tok = fold_module_const(prog, P, "_TABLE_END")
-    rep.check(tok == "TABLE END" and t == ("cmp", "==", v, ("const", "TABLE END")), rule, P, "_is_table_end", "table end token is exactly 'TABLE END'", f"_is_table_end normalises to {show(t)[:120]} with _TABLE_END = {tok!r}", loc(end.node))
-    beg = prog.func(P, "_is_table_begin")
-    t = norm.inline(beg, None, args, ctx)
-    kinds = sorted({s2[3][1].member for s2 in subterms(t) if s2[0] == "cmp" and s2[1] == "==" and s2[3][0] == "const" and hasattr(s2[3][1], "member")})
-    rep.check(t[0] == "or" and kinds == ["IN", "INTRA", "OUT"], rule, P, "_is_table_begin", "table begin = the IN, OUT or INTRA keyword", f"_is_table_begin normalises to {show(t)[:200]} (kinds {kinds}); expected the disjunction of the three table keywords", loc(beg.node))
+    rep.check(tok == "TABLE END", rule, P, "_TABLE_END", "table end token is exactly 'TABLE END'", f"_TABLE_END = {tok!r}; the documented end-of-table keyword is 'TABLE END'", loc(prog.func(P, "_is_table_end").node))
     gst = prog.func("rp2.entry_types", "EntrySetType.get_entry_set_type_from_string")
     txt = [unparse(s2) for s2 in gst.body]
     ok = any("has_value(entry_set_type.lower())" in x and "return None" in x for x in txt) and txt[-1] == "return EntrySetType[entry_set_type.upper()]"
